@@ -27,7 +27,7 @@ func init() {
 	register(&Prop{
 		ID:         "C19",
 		Title:      "Batch operations equal their item-by-item decomposition",
-		Decided:    "the batch is literally its decomposition: (R1) the per-request dispatcher of BatchWriteItem calls the client's own PutItem with exactly {Item ← PutRequest.Item, TableName ← the request's table} and DeleteItem with exactly {Key ← DeleteRequest.Key, TableName ← table} – no condition or other field – choosing the branch by which request pointer is non-nil; (R2) the input validation dominates the first request and both loops visit every table and every request unconditionally; (R3) the error handler never drops a request (shared with C15.R3); (R4) BatchGetItem issues the client's own GetItem per key with {Key ← the key, TableName ← the table}, a key is reported unprocessed only on the non-nil edge of that call's own error, no error is manufactured from an empty result (absent keys are simply omitted), and results are appended under the table they were requested for; (R5) both clients offer the same batch operations; (R6) the lists a batch returns are not built on package-level storage (= C18.R6).",
+		Decided:    "the batch is literally its decomposition: (R1) the per-request dispatcher of BatchWriteItem calls the client's own PutItem with exactly {Item ← PutRequest.Item, TableName ← the request's table} and DeleteItem with exactly {Key ← DeleteRequest.Key, TableName ← table} – no condition or other field – choosing the branch by which request pointer is non-nil; (R2) the input validation dominates the first request and both loops visit every table and every request unconditionally; (R3) the error handler never drops a request (shared with C15.R3); (R4) BatchGetItem issues the client's own GetItem per key with {Key ← the key, TableName ← the table}, a key is reported unprocessed only on the non-nil edge of that call's own error, no error is manufactured from an empty result (absent keys are simply omitted), and results are appended under the table they were requested for; (R5) both clients offer the same batch operations; (R6) the lists a batch returns are not built on package-level storage (= C18.R6); (R7) in BatchWriteItem, as R4 requires of BatchGetItem, every slice stored under a table name is allocated inside that table's iteration.",
 		NotDecided: "equality of the resulting table states (follows from R1–R3 together with C01/C08 for the single-item operations); DynamoDB's 16 MB / 100-key limits; order of responses.",
 		Rules: []RuleDef{
 			{ID: "R1", Desc: "dispatcher builds exactly the single-item request (T-FLOW)", Run: c19R1},
@@ -65,6 +65,7 @@ func init() {
 				}
 			}},
 			{ID: "R6", Desc: "batch results are not built on shared package-level storage (= C18.R6)", Run: aliasRule("R6", c18R6, nil)},
+			{ID: "R7", Desc: "BatchWriteItem: the list of unprocessed requests stored under a table's name is that table's own – not a buffer made once before the loop over the tables or carried from one table to the next (re-sliced to [:0]), which all tables would share", Run: c19R7},
 		},
 	})
 }
@@ -449,6 +450,79 @@ func c19R4(e *Engine) {
 			}
 		})
 	}
+	shared := e.sharedPerTableBuffer(bg, topCall, role)
+	e.check(shared == "", "R4", "v2.Client.BatchGetItem:per-table-accumulators", e.pos(bg.Pos()), "each table's response list is allocated for that table %s", shared)
+}
+
+func derivesFromAny(v ssa.Value, srcs []*ssa.Extract) bool {
+	for _, x := range srcs {
+		if strip(v) == ssa.Value(x) {
+			return true
+		}
+		if mi, ok := v.(*ssa.MakeInterface); ok && mi.X == ssa.Value(x) {
+			return true
+		}
+	}
+	return false
+}
+
+// sdkStruct: the struct type named `name` in the package that declares the (pointer to) struct type t's sibling types
+// (dynamodb.GetItemInput lives in service/dynamodb, KeysAndAttributes in service/dynamodb/types: searched in the imports).
+func sdkStruct(t types.Type, name string, e *Engine) *types.Struct {
+	nt := namedOf(t)
+	if nt == nil || nt.Obj().Pkg() == nil {
+		return nil
+	}
+	cands := append([]*types.Package{nt.Obj().Pkg()}, nt.Obj().Pkg().Imports()...)
+	for _, p := range cands {
+		if o := p.Scope().Lookup(name); o != nil {
+			if st, ok := o.Type().Underlying().(*types.Struct); ok {
+				return st
+			}
+		}
+	}
+	return nil
+}
+
+// ascendingInduction: v is the position of a loop that visits 0, 1, 2, …: a phi starting at 0 stepped by +1, or the
+// `phi + 1` of go/ssa's range lowering (phi starting at -1).
+func ascendingInduction(v ssa.Value) bool {
+	var phi *ssa.Phi
+	start := int64(0)
+	switch x := v.(type) {
+	case *ssa.Phi:
+		phi = x
+	case *ssa.BinOp:
+		if n, ok := constInt(x.Y); x.Op == token.ADD && ok && n == 1 {
+			phi, _ = x.X.(*ssa.Phi)
+			start = -1
+		}
+	}
+	if phi == nil {
+		return false
+	}
+	okStart, okStep := false, false
+	for _, ed := range phi.Edges {
+		if n, isC := constInt(ed); isC {
+			okStart = n == start
+			continue
+		}
+		add, ok := ed.(*ssa.BinOp)
+		if !ok || add.Op != token.ADD || add.X != ssa.Value(phi) {
+			return false
+		}
+		if n, isC := constInt(add.Y); !isC || n != 1 {
+			return false
+		}
+		okStep = true
+	}
+	return okStart && okStep
+}
+
+// sharedPerTableBuffer: in fn, whose loop over the tables contains topCall, what is stored under a table's name must be
+// allocated for that table: a slice made outside the loop, or carried from one iteration of it to the next, is shared
+// by the lists of all tables. "" when every stored list is the table's own.
+func (e *Engine) sharedPerTableBuffer(bg *ssa.Function, topCall ssa.Instruction, role string) string {
 	var outer map[*ssa.BasicBlock]bool
 	if topCall != nil {
 		for _, body := range naturalLoops(bg) {
@@ -528,70 +602,23 @@ func c19R4(e *Engine) {
 		}
 		walk(mu.Value)
 	})
-	e.check(shared == "", "R4", "v2.Client.BatchGetItem:per-table-accumulators", e.pos(bg.Pos()), "each table's response list is allocated for that table %s", shared)
+	return shared
 }
 
-func derivesFromAny(v ssa.Value, srcs []*ssa.Extract) bool {
-	for _, x := range srcs {
-		if strip(v) == ssa.Value(x) {
-			return true
-		}
-		if mi, ok := v.(*ssa.MakeInterface); ok && mi.X == ssa.Value(x) {
-			return true
-		}
-	}
-	return false
-}
-
-// sdkStruct: the struct type named `name` in the package that declares the (pointer to) struct type t's sibling types
-// (dynamodb.GetItemInput lives in service/dynamodb, KeysAndAttributes in service/dynamodb/types: searched in the imports).
-func sdkStruct(t types.Type, name string, e *Engine) *types.Struct {
-	nt := namedOf(t)
-	if nt == nil || nt.Obj().Pkg() == nil {
-		return nil
-	}
-	cands := append([]*types.Package{nt.Obj().Pkg()}, nt.Obj().Pkg().Imports()...)
-	for _, p := range cands {
-		if o := p.Scope().Lookup(name); o != nil {
-			if st, ok := o.Type().Underlying().(*types.Struct); ok {
-				return st
-			}
-		}
-	}
-	return nil
-}
-
-// ascendingInduction: v is the position of a loop that visits 0, 1, 2, …: a phi starting at 0 stepped by +1, or the
-// `phi + 1` of go/ssa's range lowering (phi starting at -1).
-func ascendingInduction(v ssa.Value) bool {
-	var phi *ssa.Phi
-	start := int64(0)
-	switch x := v.(type) {
-	case *ssa.Phi:
-		phi = x
-	case *ssa.BinOp:
-		if n, ok := constInt(x.Y); x.Op == token.ADD && ok && n == 1 {
-			phi, _ = x.X.(*ssa.Phi)
-			start = -1
-		}
-	}
-	if phi == nil {
-		return false
-	}
-	okStart, okStep := false, false
-	for _, ed := range phi.Edges {
-		if n, isC := constInt(ed); isC {
-			okStart = n == start
+// c19R7: the per-table clause of R4, for the unprocessed requests of BatchWriteItem.
+func c19R7(e *Engine) {
+	for _, role := range clientRoles {
+		bw := e.clientMethods(role)["BatchWriteItem"]
+		if !e.anchor("R7", role+".Client.BatchWriteItem", bw == nil) {
 			continue
 		}
-		add, ok := ed.(*ssa.BinOp)
-		if !ok || add.Op != token.ADD || add.X != ssa.Value(phi) {
-			return false
+		dsite, _ := e.batchWritePath(role)
+		if !e.anchor("R7", role+": per-request dispatch of BatchWriteItem", dsite == nil) {
+			continue
 		}
-		if n, isC := constInt(add.Y); !isC || n != 1 {
-			return false
-		}
-		okStep = true
+		chain := dsite.chainInstrs()
+		top := chain[len(chain)-1]
+		shared := e.sharedPerTableBuffer(bw, top, role)
+		e.check(shared == "", "R7", role+".Client.BatchWriteItem:per-table-unprocessed", e.pos(bw.Pos()), "each table's list of unprocessed requests is allocated for that table %s", shared)
 	}
-	return okStart && okStep
 }
